@@ -99,6 +99,10 @@ def pfe_holds(pfe, doc):
         b = doc.get('b')
         vals = b if isinstance(b, list) else [b]
         return any(isinstance(x, (int, float)) and not isinstance(x, bool) and x > 1 for x in vals)
+    if pfe == {'t': {'$type': 'double'}}:
+        t = doc.get('t')
+        vals = (t + [t]) if isinstance(t, list) else [t]
+        return any(isinstance(x, float) for x in vals)
     if pfe == {'a': 1}:
         a = doc.get('a', None)
         vals = (a + [a]) if isinstance(a, list) else [a]
@@ -149,6 +153,8 @@ def classify(ix, d1, d2):
     per1 = [values_at(d1, k.split('.')) for k in ix['key']]
     per2 = [values_at(d2, k.split('.')) for k in ix['key']]
     flat = list(itertools.chain(*per1, *per2))
+    if ix['pfe'] == {'t': {'$type': 'double'}}:
+        return 'partial-type-sensitive'
     if any(isinstance(v, list) for k in ix['key'] for v in [get_raw(d1, k), get_raw(d2, k)]):
         return 'multikey'
     if any(dead_end(d, k) for k in ix['key'] for d in (d1, d2)):
